@@ -145,8 +145,23 @@ fn generate_e(seed: u64, quick: bool) -> Value {
             items.push(item);
             continue;
         }
-        let c = g.rng.upto(8);
+        let c = g.rng.upto(9);
         match c {
+            8 => {
+                if !g.rng.chance(1, 3) {
+                    count -= 1;
+                    continue;
+                }
+                // a lot of output without a newline: more than std's buffer, sometimes more than a pipe holds
+                let m = g.marker();
+                let k = *g.rng.pick(&[50u32, 200, 1500, 9000]);
+                let a = format!("rep{}", count);
+                let b = format!("rep{}b", count);
+                items.push(json!({"forms": [
+                    format!("(define ({} n) (if (= n 0) 0 ({} n)))", a, b),
+                    format!("(define ({} n) (display \"<<{}>>\") ({} (- n 1)))", b, m, a),
+                    format!("({} {})", a, k)], "markers": vec![m; k as usize], "kind": "bulk-output"}));
+            }
             0 | 1 | 2 => {
                 let m1 = g.marker();
                 let m2 = g.marker();
